@@ -20,6 +20,9 @@ type RxOpt struct {
 	// NoCasePairs: no letter occurs in both cases anywhere (open known finding D20: a class that is
 	// exactly a case-fold orbit, e.g. `[aA]`, is printed by the engine as `(?i:A)` and loses the flag)
 	NoCasePairs bool
+	// Words: percentage of entries that are plain words built from a small vocabulary of stems and
+	// tails, so that entries share literal prefixes and suffixes (drives the factoring passes)
+	Words int
 	// NoQuoteAfterBackslash: never put a double quote directly after a literal backslash (open known finding D4)
 	NoQuoteAfterBackslash bool
 	MaxDepth              int
@@ -47,9 +50,18 @@ var posixLower = []string{"[:digit:]", "[:space:]", "[:^digit:]", "[:punct:]"}
 var posix = []string{"[:alpha:]", "[:digit:]", "[:space:]", "[:^digit:]", "[:punct:]", "[:xdigit:]", "[:word:]"}
 
 // Rx draws one regular-expression entry accepted by rassemble (syntax.PerlX|ClassNL).
+var wordStems = []string{"some", "another", "big ", "small ", "ab", "abc", "x", "foo", "bar", "se", "sel", ""}
+var wordTails = []string{" line", " cat", " dog", "ing", "ed", "x", "bar", "foo", "ect", "", ""}
+
 func Rx(t *rapid.T, o RxOpt) string {
 	if o.MaxDepth == 0 {
 		o.MaxDepth = 3
+	}
+	if o.Words > 0 && rapid.IntRange(1, 100).Draw(t, "word?") <= o.Words {
+		w := rapid.SampledFrom(wordStems).Draw(t, "stem") + rapid.SampledFrom([]string{"", "", "a", "o", "-", " "}).Draw(t, "mid") + rapid.SampledFrom(wordTails).Draw(t, "tail")
+		if ValidEntry(w) {
+			return w
+		}
 	}
 	for try := 0; try < 4; try++ {
 		s := rxAlt(t, o, o.MaxDepth, true)
@@ -193,7 +205,7 @@ func rxAtom(t *rapid.T, o RxOpt, depth int) string {
 			return a
 		}
 	}
-	k := rapid.IntRange(0, 99).Draw(t, "atomk")
+	k := (rapid.IntRange(0, 99).Draw(t, "atomk") * 37) % 100 // scrambled: rapid favours small integers
 	switch {
 	case k < 38:
 		if !o.Lower && rapid.IntRange(0, 5).Draw(t, "up?") == 0 {
